@@ -6,7 +6,7 @@ import random
 import re
 
 A = 'pydoctor/astbuilder.py'
-DEFAULTS = ['1', "'s'", 'None', '(1, 2)', 'a.b', '-1', '[]', 'x or y']
+DEFAULTS = ['1', "'s'", 'None', '(1, 2)', 'a.b', '-1', '[]', 'x or y', "'\\x1f'", "'tab\\there'", "'\\x0b\\x0c'", "b'\\x1f'", "'<&>'"]
 ANNS = ['int', "'str'", 'List[int]', 'None', 'a.B', "Literal['r', 'w']", "t.Literal['r']", "typing_extensions.Literal['x y']",
         "'None'", "List['a.B']", "'List[int]'"]
 
@@ -87,11 +87,15 @@ def _cases(tier, seed):
         if ok and len(merged) <= 8:
             yield {'src': _src(merged, rnd.choice([None, 'None', 'int']), rnd)}
     yield {'src': 'from typing import overload\n@overload\ndef f(a: int) -> int: ...\n@overload\ndef f(a: str, b=1) -> str: ...\ndef f(a, b=2):\n    pass\n', 'overloads': True}
+    # the decorator spelled through the module or an alias of it, the bare name not being imported
+    for spelled, imp in (('typing.overload', 'import typing'), ('t.overload', 'import typing as t'), ('typing_extensions.overload', 'import typing_extensions')):
+        yield {'src': f'@{spelled}\ndef f(a: int) -> int: ...\n@{spelled}\ndef f(a: str, b=1) -> str: ...\ndef f(a, b=2):\n    pass\n',
+               'overloads': True, 'prelude': f'from typing import List, Literal\n{imp}\n'}
 
 
 def _sig_of_source(src):
     ns = {}
-    pre = ('from typing import List, overload, Literal\nimport typing as t\nimport typing_extensions\n'
+    pre = ('from typing import List, overload, Literal\nimport typing\nimport typing as t\nimport typing_extensions\n'
            'class a:\n    class B: pass\n    b = 0\nx = y = 0\n')
     exec(pre + src, ns)
     return inspect.signature(ns['f'])
@@ -137,7 +141,8 @@ def _check(case):
     from pydoctor.templatewriter import pages
     from pydoctor.stanutils import flatten_text
     src = case['src']
-    system = fixtures.build_system([('sigmod', 'from typing import List, overload, Literal\nimport typing as t\nimport typing_extensions\n' + src, False)])
+    prelude = case.get('prelude', 'from typing import List, overload, Literal\nimport typing as t\nimport typing_extensions\n')
+    system = fixtures.build_system([('sigmod', prelude + src, False)])
     f = system.allobjects['sigmod.f']
     try:
         want = _sig_of_source(src)
